@@ -48,6 +48,9 @@ def shifted_enum(pt, rawv, B):
     rp = copy.deepcopy(pt)
     for e in rp["enum"]:
         e["raw"] = dict(e["raw"], shift=B)
+    if rp["cal"]["default"]["k"] == "spline":        # a spline is translation invariant in its raw coordinate as well
+        for p_ in rp["cal"]["default"]["pts"]:
+            p_["x"] = dict(p_["x"], shift=B)
     return rp, dict(rawv, shift=B)
 
 
